@@ -56,7 +56,9 @@ int main(int argc, char** argv)
         { int na = g.range(1, std::max(1, n)); std::vector<int> a(n); for (int i = 0; i < n; i++) a[i] = g.below(na);
           std::vector<int> root(na, -1); for (int i = 0; i < n; i++) if (root[a[i]] < 0) root[a[i]] = i;
           for (int i = 0; i < n; i++) aggRoot[i] = (g.coin(1, 12) && root[a[i]] != i) ? -1 : root[a[i]];       // a few unaggregated (isolated) vertices
-          for (int i = 0; i < n; i++) B[i] = (g.coin() ? 1 : -1) * (0.25 + 0.25 * g.range(0, 12)); }
+          for (int i = 0; i < n; i++) B[i] = (g.coin() ? 1 : -1) * (0.25 + 0.25 * g.range(0, 12));
+          // a candidate that is tiny (but not zero) on one aggregate: the drop test of fit_candidates is relative to the norm
+          if (c16 && g.coin(1, 4)) { int ta = g.below(na); for (int i = 0; i < n; i++) if (a[i] == ta) B[i] *= 1e-11; } }
         double omega = g.coin() ? 4.0 / 3 : 0.25 * g.range(1, 7); int ksteps = g.range(1, 2);
         if (seq) {
             CSRMatrix* A = vh::make_csr(t); A->sort(); A->move_diag();
@@ -84,7 +86,7 @@ int main(int argc, char** argv)
             int style = g.coin() ? 1 : 2 + g.below(2);
             std::vector<int> Rr = vh::compose(g, n, np, style);
             vh::Layout L; L.kind = 1; L.rows = Rr; L.cols = Rr; L.first_row.assign(np, 0); for (int p = 1; p < np; p++) L.first_row[p] = L.first_row[p - 1] + Rr[p - 1]; L.first_col = L.first_row;
-            int tap = (np > 1 && g.coin(1, 3)) ? 1 : 0;
+            int tap = (np > 1 && g.coin(1, 2)) ? 1 : 0;
             ParCOOMatrix* Ac = vh::assemble_coo(t, L, rank); ParCSRMatrix* A = Ac->to_ParCSR();
             if (tap) A->init_tap_communicators(MPI_COMM_WORLD);
             int fr = A->partition->first_local_row, lr = A->local_num_rows;
